@@ -452,6 +452,17 @@ func c10Run(ctx *Ctx, c *c10Case, alsoRT bool) {
 		}
 	}
 
+	// type_args_satisfy_contract (marks): the Type callback, too, sees no mark a parameter does not allow
+	// (a seeded change let a marked variadic argument through to Type whenever a positional one was marked as well;
+	// Impl, unmarked by Call's own pass, then ran on other arguments than the type check had accepted)
+	if typeRan && countOK && len(o.typeSeen[0]) == nArgs {
+		for i, a := range o.typeSeen[0] {
+			if p := c.paramFor(i); a.ContainsMarked() && !p.m {
+				fail("type-args-contract", fmt.Sprintf("marked-arg:n%v u%v d%v m%v", p.n, p.u, p.d, p.m), "the Type callback saw a mark (at some depth) without AllowMarked", fmt.Sprintf("index %d %s", i, encVal(a)))
+			}
+		}
+	}
+
 	// outcome classification and the remaining clauses
 	kind := strings.SplitN(outcome, " ", 2)[0]
 	switch kind {
